@@ -261,102 +261,52 @@ func findBitInByte(b byte, searchBit bool, testBit, stopBit uint8) int {
 // full range
 func findBit(bytes []byte, startIndex, endIndex, width int, searchBit, noEnd bool) int {
 	bits := len(bytes) * 8
-	end := bits - 1
+	units := bits / width // the indexes count bytes (width 8) or bits (width 1)
 
-	// convert to bits and determine negative offsets
-	var startBit, endBit int
+	// negative indexes count from the end
 	if startIndex < 0 {
-		startBit = bits + (startIndex * width)
-	} else {
-		startBit = startIndex * width
+		startIndex += units
 	}
 	if endIndex < 0 {
-		endBit = bits + (endIndex * width)
-	} else {
-		endBit = endIndex * width
+		endIndex += units
 	}
 
 	// enforce boundaries
-	if startBit < 0 {
-		startBit = 0
-	} else if startBit > end {
+	if startIndex < 0 {
+		startIndex = 0
+	}
+	if endIndex >= units {
+		endIndex = units - 1
+	}
+	if endIndex < startIndex {
 		return -1
 	}
-	if endBit < startBit {
-		return -1
-	} else if endBit > end {
-		endBit = end
+
+	// the range in bits, both ends included
+	startBit := startIndex * width
+	endBit := endIndex*width + width - 1
+
+	skipByte := byte(0x00) // a byte without the searched bit
+	if !searchBit {
+		skipByte = 0xFF
 	}
 
-	// initialize indexes and positions
-	startByte := startBit / 8
-	endByte := endBit / 8
-	index := startByte
-	startOffset := 7 - (startBit % 8)
-	endOffset := 7 - (endBit % 8)
-	lastBit := uint8(1) << uint8(endOffset)
-
-	// special handling of a partial start byte
-	var b uint8
-	if startOffset != 7 {
-		firstBit := uint8(1) << startOffset
-		mask := firstBit | (firstBit - 1)
-		b = bytes[index]
-		b &= mask
-		if !searchBit {
-			b |= ^mask
+	for i := startBit; i <= endBit; {
+		b := bytes[i/8]
+		if i%8 == 0 && i+7 <= endBit && b == skipByte {
+			i += 8
+			continue
 		}
-
-		subOffset := 0
-		if startByte == endByte {
-			mask = lastBit - 1
-			b &= ^mask
-			if !searchBit {
-				b |= mask
-			}
-			subOffset = findBitInByte(b, searchBit, firstBit, lastBit)
-		} else {
-			subOffset = findBitInByte(b, searchBit, firstBit, 0x01)
+		if ((b>>(7-uint(i%8)))&1 == 1) == searchBit {
+			return i
 		}
-		if subOffset >= 0 {
-			return startBit + subOffset
-		}
-
-		// advance and align starts to the first full byte
-		index++
-		startByte++
-		startBit = ((startBit + 7) / 8) * 8
+		i++
 	}
 
-	// special decrement for a partial last byte
-	fullEnd := endByte
-	if lastBit != 0x01 {
-		fullEnd--
-	}
-
-	// search full bytes
-	for index <= fullEnd {
-		b = bytes[index]
-		subOffset := findBitInByte(b, searchBit, 0x80, 0x01)
-		if subOffset >= 0 {
-			return startBit + subOffset + ((index - startByte) * 8)
-		}
-		index++
-	}
-
-	// search the last partial byte
-	if index == endByte {
-		b = bytes[index]
-		subOffset := findBitInByte(b, searchBit, 0x80, lastBit)
-		if subOffset >= 0 {
-			return startBit + subOffset + ((index - startByte) * 8)
-		}
-	}
-
-	// not found
+	// not found; when looking for a clear bit without an explicit end, the
+	// string is considered to be followed by zero bits
 	if !searchBit && noEnd {
 		return bits
-	} else {
-		return -1
 	}
+	return -1
 }
